@@ -486,6 +486,10 @@ class TRec(T):
         rec = {"kind": "rec", "fields": {}}
         for k, t in self.fields.items():
             rec["fields"][k] = t.fresh(f"{name}[{k}]", st)
+            if isinstance(rec["fields"][k], (VList, VDict, VSet)):
+                # aliasing assumption (DESIGN, TB-py): different entries of the epistemic state hold
+                # different container objects (each is created by its own dict() / list expression)
+                rec["fields"][k].oid = f"{name}[{k}]"
         return VRef(st.alloc(rec), self)
 
 
@@ -532,3 +536,47 @@ class TCallable(T):
 
 def same_type_fresh(v: V, name, st):
     return v.ty.fresh(name, st)
+
+
+# ----------------------------------------------------------------------------
+# integer-sorted pysmt terms / constraints (pyvc.iterm, TB-ifml)
+# ----------------------------------------------------------------------------
+class VITerm(V):
+    def __init__(self, t):
+        self.t = t
+        self.ty = TITerm
+
+
+class VIForm(V):
+    def __init__(self, t):
+        self.t = t
+        self.ty = TIForm
+
+
+class _TITerm(T):
+    def fresh(self, name, st):
+        return VITerm(st.fresh_const(name, self.sort()))
+
+    def sort(self):
+        from . import iterm
+
+        return iterm.ITerm
+
+    def wrap(self, t):
+        return VITerm(t)
+
+
+class _TIForm(T):
+    def fresh(self, name, st):
+        return VIForm(st.fresh_const(name, self.sort()))
+
+    def sort(self):
+        from . import iterm
+
+        return iterm.IForm
+
+    def wrap(self, t):
+        return VIForm(t)
+
+
+TITerm, TIForm = _TITerm(), _TIForm()
